@@ -13,8 +13,9 @@
    rebuild them - C09) that evaluation is the one-process evaluation. Under the default configuration a user-defined class arrives as
    a stand-in: class-selective catching then differs from the local run (c01_selective_catch_refuted_when_class_replaced; known
    finding F46, produced for real by the harness's second phase, whose trees are now run through the model with the table of the
-   configuration in force). [xw] is ONE function: both ends are taken to be configured alike (the harness connects pairs with the same
-   configuration); a connection whose ends treat classes differently is not an instance. Classes the code never sends back at all
+   configuration in force). [xw] is one function per RECEIVING peer (what a class becomes depends on the receiver's configuration), so
+   connections whose ends are configured differently are instances too (the harness generates them: c01_asymmetric_sample is one). Classes
+   the code never sends back at all
    are excluded: KeyboardInterrupt (and SystemExit when configured so) raised by a callee is re-raised in the callee's serving
    thread instead of being answered (propagate_*_locally: known finding F26 under C08) and exception groups are not rebuilt (F10
    under C09) - the machine answers every request, so a tree raising those is not described by these theorems; the harness does
@@ -42,8 +43,8 @@ Qed.
 Print Assumptions c01_machine_is_evaluation_through_connection.
 
 Section ClassesReproduced.
-Variable xw : list nat -> list nat.
-Hypothesis reproduced : forall m, xw m = m.
+Variable xw : side -> list nat -> list nat.
+Hypothesis reproduced : forall t m, xw t m = m.
 
 (* 1. when the connection reproduces exception classes: for every call tree - any exception classes, any class-selective catching at
       any level - the two-peer machine reaches a quiescent state whose result and whose sequence of node invocations are exactly
@@ -75,10 +76,10 @@ Print Assumptions c01_no_deadlock.
 Definition default_table : list (nat * list nat) := [(5, [8; 9; 1; 0])].
 Definition selective : node := Node SA 1 [(Node SB 2 [] [5; 1; 0], CatchOnly [5])] [].
 Theorem c01_selective_catch_refuted_when_class_replaced :
-  eval selective = ([1; 2], Val 1) /\ evalroot (xw_table default_table) selective = ([1; 2], Exc (2, [8; 9; 1; 0]))
-  /\ result (exec (xw_table default_table) 50 (init selective)) = Some (Exc (2, [8; 9; 1; 0]))
+  eval selective = ([1; 2], Val 1) /\ evalroot (fun _ => xw_table default_table) selective = ([1; 2], Exc (2, [8; 9; 1; 0]))
+  /\ result (exec (fun _ => xw_table default_table) 50 (init selective)) = Some (Exc (2, [8; 9; 1; 0]))
   /\ (* a site naming Exception still catches it *)
-     evalroot (xw_table default_table) (Node SA 1 [(Node SB 2 [] [5; 1; 0], CatchOnly [1])] []) = ([1; 2], Val 1).
+     evalroot (fun _ => xw_table default_table) (Node SA 1 [(Node SB 2 [] [5; 1; 0], CatchOnly [1])] []) = ([1; 2], Val 1).
 Proof. vm_compute. repeat split. Qed.
 Print Assumptions c01_selective_catch_refuted_when_class_replaced.
 
@@ -106,6 +107,14 @@ Print Assumptions c01_tie.
 Definition sample : node :=
   Node SA 1 [(Node SB 2 [(Node SA 3 [] [], CatchOnly []); (Node SA 4 [(Node SB 5 [] [4; 3; 1; 0], CatchOnly [2])] [], CatchOnly [3])] [], CatchOnly []);
              (Node SA 6 [] [2; 1; 0], CatchOnly [4])] [].
-Example c01_sample : let y := exec (fun m => m) 200 (init sample) in
+Example c01_sample : let y := exec (fun _ m => m) 200 (init sample) in
   result y = Some (snd (eval sample)) /\ log y = fst (eval sample) /\ snd (eval sample) = Exc (6, [2; 1; 0]) /\ fst (eval sample) = [1; 2; 3; 4; 5; 6].
+Proof. vm_compute. repeat split. Qed.
+(* non-vacuity for differently configured ends: A (default) does not reproduce the user-defined class 5, B does. B's failure caught by
+   A's site naming 5 is missed (A receives the stand-in), A's failure caught by B's site naming 5 is caught (B reproduces it) *)
+Example c01_asymmetric_sample :
+  let xw := fun t => match t with SA => xw_table default_table | SB => fun m => m end in
+  evalroot xw (Node SA 1 [(Node SB 2 [] [5; 1; 0], CatchOnly [5])] []) = ([1; 2], Exc (2, [8; 9; 1; 0]))
+  /\ evalroot xw (Node SA 1 [(Node SB 2 [(Node SA 3 [] [5; 1; 0], CatchOnly [5])] [], CatchOnly [])] []) = ([1; 2; 3], Val 3)
+  /\ result (exec xw 80 (init (Node SA 1 [(Node SB 2 [(Node SA 3 [] [5; 1; 0], CatchOnly [5])] [], CatchOnly [])] []))) = Some (Val 3).
 Proof. vm_compute. repeat split. Qed.
